@@ -24,3 +24,5 @@ import OSProofs.Ladder
 #print axioms OS.denseRanks_nondecreasing
 #print axioms OS.ladderPairsCode_eq
 #print axioms OS.ladderPairsCode_getElem
+#print axioms OS.rateCore_via_prepared
+#print axioms OS.compute_eq_computeOn
